@@ -11,6 +11,7 @@ pub mod cal;
 pub mod c02;
 pub mod c03;
 pub mod c04;
+pub mod c05;
 pub mod c06;
 pub mod c07;
 pub mod c08;
@@ -34,6 +35,7 @@ pub fn dispatch(prop: &str, run: &mut Run) {
         "C02" => c02::run(run),
         "C03" => c03::run(run),
         "C04" => c04::run(run),
+        "C05" => c05::run(run),
         "C06" => c06::run(run),
         "C07" => c07::run(run),
         "C08" => c08::run(run),
